@@ -57,6 +57,20 @@ def check_case(case):
         r = libx.call('bip143-script-as-' + kind, SignatureHash, v, tx, idx, ht0, amount=amount, sigversion=SIGVERSION_WITNESS_V0)
         if r[1] != want0:
             raise Violation('digest-script-as-' + kind, 'BIP143 digest differs when the %d-byte script code is passed as %s' % (len(sc), kind))
+    # consecutive calls that differ ONLY in the input index (what a signing loop does), on the same object and on an equal
+    # twin: nothing kept from one call may answer the next (hashOutputs under SINGLE depends on the index)
+    if len(m['vin']) >= 2 and not case.get('hts'):
+        twin = libx.mk_tx(m, False)
+        order = list(range(len(m['vin'])))
+        if amount % 2:
+            order.reverse()
+        for ht in (3, 1, 0x23, 2, 0x83, 0x43 + (amount % 4) * 0x04):
+            for k, j in enumerate(order):
+                o = twin if k % 2 else tx
+                got = libx.call('bip143-consecutive', SignatureHash, csc, o, j, ht, amount=amount, sigversion=SIGVERSION_WITNESS_V0)[1]
+                if got != RS.bip143(sc, m, j, ht, amount):
+                    raise Violation('digest-consecutive-indices', 'BIP143 digest for input %d (ht=0x%02x) is wrong when asked right after input %s of the '
+                                    'same / an equal transaction' % (j, ht, order[k - 1] if k else '-'))
     if tx.serialize() != before or (tx.GetTxid(), tx.GetHash()) != ids:
         raise Violation('mutated/tx', 'BIP143 hashing changed the transaction it was given')
     if case['mutable'] is True:
